@@ -626,12 +626,17 @@ func (r *c34Run) liveClient(v *c34Vec, unit, limit, salt int) {
 		MaxRequestBodySize: 64 << 20,
 	}
 	var srvDone sync.WaitGroup
+	var connsMu sync.Mutex
+	var conns []net.Conn // closed by the harness at the end: a panic inside Do leaks its connection
 	hc := &HostClient{
 		Addr: "example.com:80",
 		Dial: func(addr string) (net.Conn, error) {
 			pc := fasthttputil.NewPipeConns()
 			srvDone.Add(1)
 			go func() { defer srvDone.Done(); s.ServeConn(pc.Conn2()) }() //nolint:errcheck
+			connsMu.Lock()
+			conns = append(conns, pc.Conn1())
+			connsMu.Unlock()
 			return &c34FaultConn{Conn: pc.Conn1(), limit: limit}, nil
 		},
 		ReadTimeout:  60 * time.Second,
@@ -667,6 +672,11 @@ func (r *c34Run) liveClient(v *c34Vec, unit, limit, salt int) {
 	}
 	ReleaseResponse(resp)
 	hc.CloseIdleConnections()
+	connsMu.Lock()
+	for _, c := range conns {
+		c.Close()
+	}
+	connsMu.Unlock()
 	wait := make(chan struct{})
 	go func() { srvDone.Wait(); close(wait) }()
 	select {
@@ -829,7 +839,7 @@ func (r *c34Run) chunkedReaders(v *c34Vec, unit, salt int) {
 	reqWire := append([]byte("POST /p HTTP/1.1\r\nHost: h\r\nTransfer-Encoding: chunked\r\n\r\n"), chunked.Bytes()...)
 	tail := []byte("GET /next HTTP/1.1\r\nHost: h\r\n\r\n")
 
-	for _, rb := range []int{16, 4096} {
+	for _, rb := range []int{64, 4096} {
 		// Response.Read
 		var resp Response
 		br := bufio.NewReaderSize(bytes.NewReader(append(append([]byte(nil), respWire...), tail...)), rb)
